@@ -354,4 +354,206 @@ theorem absSign_spec {a : List Nat} (ha : WF a) :
       rw [if_neg (by simp; omega), h2]
       omega
 
+/-! ### conditional negation and reconstruction from (magnitude, sign) on `toInt` -/
+
+theorem resign_add_mul (M x k : Int) : resign M (x + M * k) = resign M x := by
+  unfold resign; rw [Int.add_mul_emod_self_left]
+
+theorem wrapS_add_mul (n : Nat) (x k : Int) : wrapS n (x + ((B ^ n : Nat) : Int) * k) = wrapS n x :=
+  resign_add_mul _ x k
+
+/-- `wrapS` only depends on the class modulo `2^BITS`; in particular on `val` instead of `toInt`. -/
+theorem wrapS_neg_toInt {l : List Nat} : wrapS l.length (- toInt l) = wrapS l.length (- (val l : Int)) := by
+  rcases toInt_cases l with ⟨_, h⟩ | ⟨_, h⟩
+  · rw [h, show -((val l : Int) - ((B ^ l.length : Nat) : Int)) = -(val l : Int) + ((B ^ l.length : Nat) : Int) * 1 by ring,
+      wrapS_add_mul]
+  · rw [h]
+
+theorem wrappingNegIf_toInt {a : List Nat} (p : Bool) (ha : WF a) :
+    toInt (wrappingNegIf a (mask p)) = if p then wrapS a.length (- toInt a) else toInt a := by
+  obtain ⟨w1, w2, w3⟩ := wrappingNegIf_spec p ha
+  have hM : (0 : Int) < ((B ^ a.length : Nat) : Int) := by exact_mod_cast Bpow_pos' a.length
+  have hva := val_lt ha
+  cases p
+  · have : wrappingNegIf a (mask false) = a := val_inj w1 ha w2 (by simpa using w3)
+    rw [this]; simp
+  · simp only [if_true] at w3 ⊢
+    have c1 := toInt_cases (wrappingNegIf a (mask true))
+    have c2 := toInt_cases a
+    rw [w2, w3] at c1
+    have hmod : (B ^ a.length - val a) % B ^ a.length =
+        if val a = 0 then 0 else B ^ a.length - val a := by
+      by_cases hz : val a = 0
+      · rw [hz]; simp
+      · rw [if_neg hz, Nat.mod_eq_of_lt (by omega)]
+    rw [hmod] at c1
+    unfold wrapS
+    have rc := resign_cases (M := ((B ^ a.length : Nat) : Int)) (s := - toInt a) hM (by omega)
+    generalize B ^ a.length = M at *
+    split at c1 <;> omega
+
+/-- `Int::new_from_abs_sign`: `is_some` exactly when `±abs ∈ [MIN, MAX]` (so `-2^(BITS-1)` is accepted,
+    `+2^(BITS-1)` is not, and a negative zero is fine); the value is `±abs` modulo `2^BITS` re-signed. -/
+theorem newFromAbsSign_spec {abs : List Nat} (p : Bool) (h : WF abs) (hne : abs ≠ []) :
+    (newFromAbsSign abs (mask p)).2 =
+      mask (decide (InRange abs.length (if p then -(val abs : Int) else (val abs : Int)))) ∧
+    toInt (newFromAbsSign abs (mask p)).1 =
+      wrapS abs.length (if p then -(val abs : Int) else (val abs : Int)) := by
+  obtain ⟨k, hk⟩ : ∃ k, abs.length = k + 1 := ⟨abs.length - 1, by
+    have := List.length_pos_iff.mpr hne; omega⟩
+  obtain ⟨m1, m2, m3⟩ := intMin_spec k
+  obtain ⟨x1, x2, x3⟩ := intMax_spec k
+  have hv := val_lt h
+  constructor
+  · show cor (ulte abs (intMax abs.length)) (cand (mask p) (ueq abs (intMin abs.length))) = _
+    rw [hk, ulte_spec h x1 (by rw [x2, hk]), ueq_spec h m1 (by rw [m2, hk]), cand_mask, cor_mask, ← hk]
+    rw [hk] at hv
+    cases p
+    · simp only [Bool.false_and, Bool.or_false]
+      apply mask_congr
+      unfold InRange
+      rw [hk]
+      generalize B ^ (k + 1) = M at *
+      simp only [Bool.false_eq_true, if_false]
+      omega
+    · simp only [Bool.true_and, ← Bool.decide_or]
+      apply mask_congr
+      unfold InRange
+      rw [hk]
+      generalize B ^ (k + 1) = M at *
+      simp only [if_true]
+      omega
+  · show toInt (wrappingNegIf abs (mask p)) = _
+    rw [wrappingNegIf_toInt p h]
+    cases p
+    · simp only [Bool.false_eq_true, if_false]; exact toInt_eq_wrapS h
+    · simp only [if_true]; exact wrapS_neg_toInt
+
+/-! ### sign predicates, MIN / MAX tests -/
+
+theorem isNegative_toInt {a : List Nat} (ha : WF a) : isNegative a = mask (decide (toInt a < 0)) := by
+  rw [isNegative_spec ha]
+  have hv := val_lt ha
+  apply mask_congr
+  rcases toInt_cases a with ⟨h1, h2⟩ | ⟨h1, h2⟩ <;> rw [h2] <;> omega
+
+theorem orAll_spec {a : List Nat} (ha : WF a) : orAll a < B ∧ (orAll a = 0 ↔ val a = 0) := by
+  induction a with
+  | nil => exact ⟨by decide, by simp [orAll]⟩
+  | cons x xs ih =>
+    have ⟨hx, hxs⟩ := WF_cons.mp ha
+    obtain ⟨i1, i2⟩ := ih hxs
+    refine ⟨or_lt_B hx i1, ?_⟩
+    show x ||| orAll xs = 0 ↔ x + B * val xs = 0
+    rw [Nat.or_eq_zero_iff, i2]
+    have := B_pos
+    constructor
+    · rintro ⟨h1, h2⟩; rw [h1, h2, Nat.mul_zero]
+    · intro h
+      have h1 : x = 0 := by omega
+      have h2 : B * val xs = 0 := by omega
+      exact ⟨h1, (Nat.mul_eq_zero.mp h2).resolve_left (by omega)⟩
+
+theorem isNonzero_spec {a : List Nat} (ha : WF a) : isNonzero a = mask (decide (val a ≠ 0)) := by
+  obtain ⟨h1, h2⟩ := orAll_spec ha
+  unfold isNonzero
+  rw [fromWordNonzero_spec h1]
+  exact mask_congr (not_congr h2)
+
+theorem toInt_eq_zero_iff {a : List Nat} (ha : WF a) : toInt a = 0 ↔ val a = 0 := by
+  have hv := val_lt ha
+  rcases toInt_cases a with ⟨h1, h2⟩ | ⟨h1, h2⟩ <;> rw [h2] <;> omega
+
+theorem isPositive_spec {a : List Nat} (ha : WF a) : isPositive a = mask (decide (0 < toInt a)) := by
+  unfold isPositive
+  rw [isNegative_toInt ha, isNonzero_spec ha, cnot_dec, cand_dec]
+  apply mask_congr
+  have := toInt_eq_zero_iff ha
+  omega
+
+theorem isMin_spec {a : List Nat} (ha : WF a) (hne : a ≠ []) :
+    isMin a = mask (decide (2 * toInt a = -((B ^ a.length : Nat) : Int))) := by
+  obtain ⟨k, hk⟩ : ∃ k, a.length = k + 1 := ⟨a.length - 1, by
+    have := List.length_pos_iff.mpr hne; omega⟩
+  obtain ⟨m1, m2, m3⟩ := intMin_spec k
+  have hv := val_lt ha
+  unfold isMin
+  rw [hk, ueq_spec ha m1 (by rw [m2, hk]), ← hk]
+  apply mask_congr
+  rw [← hk] at m3
+  rcases toInt_cases a with ⟨h1, h2⟩ | ⟨h1, h2⟩ <;> rw [h2] <;> omega
+
+theorem isMax_spec {a : List Nat} (ha : WF a) (hne : a ≠ []) :
+    isMax a = mask (decide (2 * toInt a = ((B ^ a.length : Nat) : Int) - 2)) := by
+  obtain ⟨k, hk⟩ : ∃ k, a.length = k + 1 := ⟨a.length - 1, by
+    have := List.length_pos_iff.mpr hne; omega⟩
+  obtain ⟨m1, m2, m3⟩ := intMax_spec k
+  have hv := val_lt ha
+  unfold isMax
+  rw [hk, ueq_spec ha m1 (by rw [m2, hk]), ← hk]
+  apply mask_congr
+  rw [← hk] at m3
+  rcases toInt_cases a with ⟨h1, h2⟩ | ⟨h1, h2⟩ <;> rw [h2] <;> omega
+
+/-! ### magnitudes (shared by the products of C13 and the divisions of C14) -/
+
+theorem toInt_of_small {l : List Nat} (h : 2 * val l < B ^ l.length) : toInt l = (val l : Int) := by
+  rcases toInt_cases l with ⟨h1, _⟩ | ⟨_, h2⟩
+  · omega
+  · exact h2
+
+theorem toLimbs_small {n x : Nat} (h : x < B ^ n) :
+    WF (toLimbs n x) ∧ (toLimbs n x).length = n ∧ val (toLimbs n x) = x :=
+  ⟨toLimbs_WF n x, toLimbs_length n x, by rw [val_toLimbs, Nat.mod_eq_of_lt h]⟩
+
+/-- magnitude / sign view of an operand: `A = ±an`, `2·an ≤ 2^BITS` -/
+theorem mag_view {a : List Nat} (ha : WF a) :
+    WF (absSign a).1 ∧ (absSign a).1.length = a.length ∧
+    (absSign a).2 = mask (decide (toInt a < 0)) ∧
+    ((toInt a < 0 ∧ toInt a = -((val (absSign a).1 : Nat) : Int)) ∨
+     (0 ≤ toInt a ∧ toInt a = ((val (absSign a).1 : Nat) : Int))) ∧
+    2 * val (absSign a).1 ≤ B ^ a.length ∧
+    (0 ≤ toInt a → 2 * val (absSign a).1 < B ^ a.length) := by
+  obtain ⟨h1, h2, h3, h4⟩ := absSign_spec ha
+  have hr := toInt_inRange ha
+  unfold InRange at hr
+  refine ⟨h1, h2, h3, ?_, ?_, ?_⟩
+  · rcases h4 with ⟨c, e⟩ | ⟨c, e⟩
+    · left; exact ⟨c, by omega⟩
+    · right; exact ⟨c, by omega⟩
+  · rcases h4 with ⟨c, e⟩ | ⟨c, e⟩ <;> omega
+  · intro h0; rcases h4 with ⟨c, e⟩ | ⟨c, e⟩ <;> omega
+
+/-- a magnitude below half the modulus, optionally negated, reads back exactly -/
+theorem negIf_small {r : List Nat} (p : Bool) (hr : WF r) (h : 2 * val r < B ^ r.length) :
+    toInt (wrappingNegIf r (mask p)) = if p then -((val r : Nat) : Int) else ((val r : Nat) : Int) := by
+  rw [wrappingNegIf_toInt p hr, toInt_of_small h]
+  cases p
+  · simp
+  · simp only [if_true]
+    apply wrapS_of_inRange
+    unfold InRange; omega
+
+/-- conditional negation of a magnitude, in general: `±r` modulo `2^BITS` re-signed -/
+theorem negIf_wrap {r : List Nat} (p : Bool) (hr : WF r) :
+    toInt (wrappingNegIf r (mask p)) =
+      wrapS r.length (if p then -((val r : Nat) : Int) else ((val r : Nat) : Int)) := by
+  rw [wrappingNegIf_toInt p hr]
+  cases p
+  · simp only [Bool.false_eq_true, if_false]; exact toInt_eq_wrapS hr
+  · simp only [if_true]; exact wrapS_neg_toInt
+
+/-- conditional negation of a magnitude that fits (`≤ 2^(BITS-1)` when negated, `< 2^(BITS-1)` otherwise) -/
+theorem negIf_mag {r : List Nat} (p : Bool) (hr : WF r)
+    (h : if p then 2 * val r ≤ B ^ r.length else 2 * val r < B ^ r.length) :
+    toInt (wrappingNegIf r (mask p)) = if p then -((val r : Nat) : Int) else ((val r : Nat) : Int) := by
+  rw [negIf_wrap p hr]
+  apply wrapS_of_inRange
+  unfold InRange
+  have := Bpow_pos' r.length
+  cases p
+  · simp only [Bool.false_eq_true, ↓reduceIte] at h ⊢; omega
+  · simp only [↓reduceIte] at h ⊢; omega
+
+
 end CB.SInt
